@@ -41,3 +41,9 @@ pub use self::operator::*;
 pub use self::tape::{TextTape, TextTapeParser, TextToken};
 pub use self::writer::*;
 pub use reader::{ReaderError, ReaderErrorKind, Token, TokenReader, TokenReaderBuilder};
+
+/// Verification hooks. Compiled only with `--cfg jomini_verif`.
+#[cfg(jomini_verif)]
+pub mod verif_hooks {
+    pub use super::tape::verif_hooks::*;
+}
